@@ -31,6 +31,13 @@ Theorem C10_width_equation : forall u cbw,
 Proof. exact (fun u cbw => proj1 (blw_spec u cbw)). Qed.
 Print Assumptions C10_width_equation.
 
+(* ... and this holds for every box of every laid out document, against the used width of
+   its containing block (the page's content width for the root) *)
+Theorem C10_width_equation_every_box : forall cbx cby cbw cbh root,
+  width_eq_tree cbw (layout_doc exactQ cbx cby cbw cbh root).
+Proof. exact (fun cbx cby cbw cbh root => width_equation_doc root true cbw (Some cbh) cbx cby []). Qed.
+Print Assumptions C10_width_equation_every_box.
+
 Theorem C10_auto_width_fills : forall u cbw,
   uw u = None ->
   let r := fst (block_level_width_ exactQ u cbw) in
